@@ -99,6 +99,7 @@ func runC05(c *core.Ctx) {
 	c.Rule("R5.3", "a hit is constructed only on paths that compared the number of chunk replies with the metadata's chunk count and took the equal side", 3)
 	c.Rule("R5.4", "every chunk reply that is counted was read without error and had its token compared in the same iteration, or no hit is reachable afterwards: a skipped comparison or a failed read leaves bytes in the value that the token check never covered", 3)
 
+	c.Rule("R5.5", "the token a caller compares is the token of the reply just read: in the reply-read helper every path to the read of a chunk's data passes the read of that chunk's token into the caller's token buffer (unless the caller passed none)", 3)
 	helper := replyHelper(c)
 	if helper == nil {
 		c.Undecided("R5.2", "chunked#reply-helper", "-", "no reply-read helper (results (bool, error), reads a response header) found")
@@ -170,6 +171,9 @@ func checkReplyLoop(c *core.Ctx, fn, helper *ssa.Function) {
 		if b != tokenBuf {
 			dataBufs = append(dataBufs, b)
 		}
+	}
+	if tokenBuf != nil {
+		checkHelperFillsToken(c, "R5.5", key, helper, hcall, tokenBuf, dataBufs)
 	}
 	// hit constructions
 	isHit := func(ins ssa.Instruction) (bool, string) {
@@ -513,4 +517,81 @@ func runR51(c *core.Ctx) {
 	}
 	// the channel itself is created once at init and never replaced
 	_ = tokens
+}
+
+// checkHelperFillsToken (R5.5): the caller compares metaData.Token with the buffer it handed to the reply helper. That
+// comparison only says something about the reply just read if the helper stored this reply's token in the buffer: a path
+// that reads the chunk's data without reading its token leaves the previous reply's token there, and the comparison
+// succeeds for a chunk of any write.
+func checkHelperFillsToken(c *core.Ctx, rule, key string, helper *ssa.Function, hcall *ssa.Call, tokenBuf ssa.Value, dataBufs []ssa.Value) {
+	var tokP, dataP *ssa.Parameter
+	for i, a := range hcall.Call.Args {
+		if i >= len(helper.Params) {
+			break
+		}
+		if a == tokenBuf {
+			tokP = helper.Params[i]
+		}
+		for _, d := range dataBufs {
+			if a == d {
+				dataP = helper.Params[i]
+			}
+		}
+	}
+	k := key + "#helper-reads-token"
+	if tokP == nil || dataP == nil {
+		c.Undecided(rule, k, c.P.Pos(hcall.Pos()), "cannot map the caller's token and data buffers to parameters of the reply helper")
+		return
+	}
+	pv := &ssax.Prov{}
+	readsInto := func(ins ssa.Instruction, p *ssa.Parameter) bool {
+		cc := ssax.CallOf(ins)
+		if cc == nil {
+			return false
+		}
+		n := ssax.CalleeName(cc)
+		if n != "io.ReadAtLeast" && n != "io.ReadFull" {
+			return false
+		}
+		return ssax.Any(pv.Sources(cc.Args[1]), func(s ssax.Src) bool { return s.Kind == "param" && s.V == ssa.Value(p) })
+	}
+	// edges on which the token buffer is known to be nil
+	nilEdge := func(from, to *ssa.BasicBlock) bool {
+		ifi, ok := from.Instrs[len(from.Instrs)-1].(*ssa.If)
+		if !ok {
+			return false
+		}
+		bo, ok := ifi.Cond.(*ssa.BinOp)
+		if !ok || (bo.Op != token.EQL && bo.Op != token.NEQ) {
+			return false
+		}
+		x := bo.X
+		if ssax.IsNilConst(x) {
+			x = bo.Y
+		} else if !ssax.IsNilConst(bo.Y) {
+			return false
+		}
+		if ssax.Unwrap(x) != ssa.Value(tokP) {
+			return false
+		}
+		isNilSide := (bo.Op == token.EQL && to == from.Succs[0]) || (bo.Op == token.NEQ && to == from.Succs[1])
+		return isNilSide
+	}
+	hit, trail := (ssax.Reach{
+		Target:    func(i ssa.Instruction) bool { return readsInto(i, dataP) },
+		Avoid:     func(i ssa.Instruction) bool { return readsInto(i, tokP) },
+		AvoidEdge: nilEdge,
+	}).FromBlock(helper.Blocks[0])
+	nData := 0
+	ssax.Instrs(helper, func(i ssa.Instruction) {
+		if readsInto(i, dataP) {
+			nData++
+		}
+	})
+	if nData == 0 {
+		c.Undecided(rule, k, c.P.Pos(helper.Pos()), "the reply helper does not read into the caller's data buffer with ReadAtLeast/ReadFull: idiom not recognised")
+		return
+	}
+	c.Check(hit == nil, rule, k, c.P.Pos(helper.Pos()), "every path to the read of the chunk's data reads the chunk's token into the caller's buffer first",
+		"the reply helper can read a chunk's data without storing that chunk's token in the caller's buffer ("+strings.Join(ssax.BlockTrail(c.P.Fset, trail), " -> ")+"): the caller then compares the metadata token with the token of an earlier reply, so chunks written by another set are accepted")
 }
